@@ -71,3 +71,54 @@ def run(ctx, stds=("c++17",)):
         if r.returncode != 0:
             ctx.violation("direct:extra-cpp-run", {"std": std, "what": f"driver exit code {r.returncode}: {r.stderr[-1200:]}", "lib_rs": c01_extra.BRIDGE}, True)
     return n
+
+
+# ---- recorded findings of the unchanged tree, exercised on every run (audit of 2026-09-30)
+STRS_BRIDGE = """#[diplomat::bridge]
+pub mod ffi {
+    use diplomat_runtime::DiplomatStrSlice;
+    #[diplomat::opaque]
+    pub struct Strs;
+    impl Strs {
+        pub fn count(v: &[DiplomatStrSlice]) -> usize { v.len() }
+        pub fn first_len(v: &[DiplomatStrSlice]) -> usize { v[0].len() }
+        pub fn first_addr(v: &[DiplomatStrSlice]) -> usize { v[0].as_ptr() as usize }
+    }
+}
+"""
+STRS_DRIVER = r'''
+#include "Strs.hpp"
+#include <array>
+#include <cstdio>
+#include <string_view>
+int main() {
+  static const char a[] = "ab"; static const char b[] = "cde";
+  std::array<std::string_view, 2> arr{std::string_view(a, 2), std::string_view(b, 3)};
+  diplomat::span<const std::string_view> sp(arr.data(), arr.size());
+  printf("%zu %zu %d\n", Strs::count(sp), Strs::first_len(sp), (int)(Strs::first_addr(sp) == (size_t)(const void*)a));
+  return 0;
+}
+'''
+
+
+def run_string_lists(ctx, stds=("c++17",)):
+    """a list of strings (`&[DiplomatStrSlice]`, C++ `span<const std::string_view>`): each element must arrive as (pointer, length)"""
+    d, lib, p = e2e.bridge_crate("c02strs", STRS_BRIDGE)
+    if lib is None:
+        raise MachineryError("C02: the string-list bridge does not build: " + p.stderr[-800:])
+    q = e2e.run_tool("cpp", os.path.join(d, "src/lib.rs"), os.path.join(d, "out_cpp"))
+    if q.returncode != 0:
+        ctx.violation("e2e:strs-tool-cpp", {"broken": "diplomat-tool cpp failed on the string-list bridge", "log": q.stderr[-1500:], "lib_rs": STRS_BRIDGE}, True)
+        return 0
+    open(os.path.join(d, "drvs.cpp"), "w").write(STRS_DRIVER)
+    n = 0
+    for std in stds:
+        c, r = e2e.cc_run(os.path.join(d, "drvs.cpp"), [os.path.join(d, "out_cpp")], lib, os.path.join(d, "drvs"), std=std, cxx=True)
+        n += 1
+        if r is None:
+            ctx.violation("direct:strs-cpp-compile", {"std": std, "what": "a C++ caller passing a span of string_views does not compile against the generated header", "log": c.stderr[-1500:]}, True)
+            continue
+        if r.stdout.strip() != "2 2 1":
+            ctx.violation("cpp-string-list-layout", {"std": std, "what": f"Strs::count / first_len / first_addr-matches of {{\"ab\", \"cde\"}} arrived as `{r.stdout.strip()}` (exit {r.returncode}); "
+                          "expected `2 2 1`: the wrapper reinterpret_casts std::string_view elements to DiplomatStringView", "lib_rs": STRS_BRIDGE}, True)
+    return n
